@@ -194,6 +194,34 @@ def _client_op(which):
     return hashlib.sha1(out).hexdigest() + ":" + out[:120].decode("ascii", "replace"), before == after, "the client object (its configuration)"
 
 
+def _conv(kind, narrow):
+    """one text through a wide and through a narrow converter of the same type: what the narrow one says must not depend on
+    the wide one having seen the text before (and vice versa)"""
+    from ofxtools import Types
+
+    text, wide, tight = {
+        "string": ("forty characters of perfectly plain text", lambda: Types.String(255), lambda: Types.String(22)),
+        "nagstring": ("forty characters of perfectly plain text", lambda: Types.NagString(255), lambda: Types.NagString(22)),
+        "integer": ("12345", lambda: Types.Integer(), lambda: Types.Integer(3)),
+        "decimal": ("1.005", lambda: Types.Decimal(), lambda: Types.Decimal(2)),
+        "oneof": ("CHECKING", lambda: Types.OneOf("CHECKING", "SAVINGS"), lambda: Types.OneOf("CREDIT", "DEBIT")),
+    }[kind]
+    conv = (tight if narrow else wide)()
+    with warnings.catch_warnings(record=True) as w:
+        warnings.simplefilter("always")
+        try:
+            r = ("ok", repr(conv.convert(text)))
+        except Exception as e:
+            r = ("refused", type(e).__name__)
+    return repr(r + (sorted(type(x.message).__name__ for x in w),)), True, ""
+
+
+def _parse_small(which):
+    term = U.MIN(U.cls_by_name("STMTTRNRS")) if which == "v1" else U.MIN(U.cls_by_name("ACCTINFOTRNRS"))
+    data = wire.to_bytes(wire.doc(ofx_rs(("bankmsgsrsv1", ("BANKMSGSRSV1", {}, [term])) if which == "v1" else ("signupmsgsrsv1", ("SIGNUPMSGSRSV1", {}, [term])))), "sgml" if which == "v1" else "xml")
+    return _parse(data), True, ""
+
+
 def _dt_convert(which):
     from ofxtools import Types
     from ofxtools import models
@@ -273,6 +301,18 @@ OPS = {
     "time_unconvert_utc": lambda: _dt_unconvert("time-utc"),
     "time_unconvert_est_same_instant": lambda: _dt_unconvert("time-est"),
     "two_instances_one_class": _two_instances,
+    "parse_small_stmt_v1": lambda: _parse_small("v1"),
+    "parse_small_acctinfo_v2": lambda: _parse_small("v2"),
+    "string_wide_limit": lambda: _conv("string", False),
+    "string_narrow_limit": lambda: _conv("string", True),
+    "nagstring_wide_limit": lambda: _conv("nagstring", False),
+    "nagstring_narrow_limit": lambda: _conv("nagstring", True),
+    "integer_unbounded": lambda: _conv("integer", False),
+    "integer_three_digits": lambda: _conv("integer", True),
+    "decimal_unscaled": lambda: _conv("decimal", False),
+    "decimal_two_places": lambda: _conv("decimal", True),
+    "oneof_declaring_token": lambda: _conv("oneof", False),
+    "oneof_not_declaring_token": lambda: _conv("oneof", True),
     "client_profile_rq_v102": lambda: _client_op("profile-v102"),
     "client_profile_rq_v160_unclosed_pretty": lambda: _client_op("profile-v160-pretty"),
     "client_statement_rq": lambda: _client_op("statement"),
@@ -281,6 +321,9 @@ OPS = {
 OPNAMES = list(OPS)
 SMALL = ["dt_convert_fresh_descriptor", "dt_convert_class_descriptor", "dt_unconvert_utc", "dt_unconvert_est_same_instant", "time_unconvert_utc", "time_unconvert_est_same_instant"]
 MEDIUM = ["introspect_base_classes", "from_etree_mail", "from_etree_stockinfo", "from_etree_mfinfo_vendor", "two_instances_one_class", "from_etree_seclist"]
+PARSE_SMALL = ["parse_small_stmt_v1", "parse_small_acctinfo_v2"]
+CONV = ["string_wide_limit", "string_narrow_limit", "nagstring_wide_limit", "nagstring_narrow_limit", "integer_unbounded", "integer_three_digits", "decimal_unscaled", "decimal_two_places",
+        "oneof_declaring_token", "oneof_not_declaring_token"]
 CLIENT = ["client_profile_rq_v102", "client_profile_rq_v160_unclosed_pretty", "client_statement_rq", "client_serialize_default_form"]
 BIG = ["parse_stmt_v1", "parse_inv_v2", "serialize_stmt_v2", "serialize_inv_v1_unclosed_pretty", "parse_profile_v1", "parse_truncated"]
 
@@ -376,7 +419,7 @@ def seq_body(seq):
 def hist_work(chunk):
     t = Tally()
     base = {}
-    for name in OPNAMES:
+    for name in sorted({n for seq in chunk for n in seq}):
         (res,), fp = in_fork(seq_body((name,)))
         base[name] = res
     for seq in chunk:
@@ -509,13 +552,21 @@ def run(ctx):
         if n == 3:
             # depth 3: all triples over the operations that touch library-global state or share class-level objects, plus
             # every pair followed/preceded by each of them
-            core = SMALL + MEDIUM + ["serialize_stmt_v2", "parse_truncated", "convert_missing_required"] + CLIENT[:1] + CLIENT[3:]
+            core = SMALL + MEDIUM + ["serialize_stmt_v2", "parse_truncated", "convert_missing_required"] + CLIENT[:1] + CLIENT[3:] + CONV[:4]
             seqs += list(itertools.product(core, repeat=3))
+        elif n == 1:
+            seqs += [(o,) for o in OPNAMES]
         else:
-            seqs += list(itertools.product(OPNAMES, repeat=n))
+            # all pairs over the document / tree / client operations; the converter probes among themselves; the small
+            # parses with the failing parses and with each other
+            main = [o for o in OPNAMES if o not in CONV and o not in PARSE_SMALL]
+            seqs += list(itertools.product(main, repeat=2))
+            seqs += list(itertools.product(CONV, repeat=2))
+            mix = PARSE_SMALL + ["parse_truncated", "parse_unknown_root", "convert_missing_required", "parse_stmt_v1"]
+            seqs += [p for p in itertools.product(mix, repeat=2) if p[0] in PARSE_SMALL or p[1] in PARSE_SMALL]
     rot = ctx.seed % len(seqs)
     seqs = seqs[rot:] + seqs[:rot]
-    jobs = [("hist", seqs[i : i + 40]) for i in range(0, len(seqs), 40)]
+    jobs = [("hist", seqs[i : i + 40]) for i in range(0, len(seqs), 40)]  # neighbours share operations: few baselines per chunk
     pairs = []
     for a, b in itertools.combinations_with_replacement(SMALL, 2):
         pairs.append(((a, b), 2, None, "line"))
@@ -530,6 +581,9 @@ def run(ctx):
             else:
                 pairs.append(((a, b), 2, 4000, "call-first"))
                 pairs.append(((a, b), 1, 3000, "line"))
+    # two parses running at once (each with its own OFXTree and source): a switch at the first visit of every function call
+    for a, b in itertools.combinations_with_replacement(PARSE_SMALL, 2):
+        pairs.append(((a, b), 1, 3000, "call-first"))
     # one client object shared by two threads: a switch at the first visit of every function call inside ofxtools
     for a, b in itertools.combinations(CLIENT, 2):
         pairs.append(((a, b), 1, 1500, "call-first"))
